@@ -1,0 +1,10 @@
+//go:build verif
+
+package gtab
+
+// This file only exports unexported state for the verification harness in
+// /verif (properties C06/C07).  It is compiled with the build tag "verif" only
+// and does not change any behaviour.
+
+// VerifStackLen returns the number of entries on the stack of nested actions.
+func (ctx *Context) VerifStackLen() int { return len(ctx.stack) }
